@@ -61,33 +61,64 @@ def exprToJson : Expr → Json
 
 def floatPi : Float := 3.141592653589793
 
-/-- libm table (Python's `math`/numpy use the same C library functions) -/
-def floatTab : FunTab Float where
-  heav := heaviside
-  cmp := cmpVal
-  f0 := fun c => if c = "pi" then floatPi else if c = "E" then Float.exp 1.0 else 0.0
-  f1 := fun f x =>
-    if f = "sin" then Float.sin x else if f = "cos" then Float.cos x
-    else if f = "tan" then Float.tan x else if f = "exp" then Float.exp x
-    else if f = "log" then Float.log x else if f = "sqrt" then Float.sqrt x
-    else if f = "tanh" then Float.tanh x else if f = "sinh" then Float.sinh x
-    else if f = "cosh" then Float.cosh x else if f = "atan" then Float.atan x
-    else if f = "asin" then Float.asin x else if f = "acos" then Float.acos x
-    else if f = "asinh" then Float.asinh x else if f = "atanh" then Float.atanh x
-    else if f = "floor" then Float.floor x else if f = "ceiling" then Float.ceil x
-    else if algFun1 f then (algTab : FunTab Float).f1 f x
-    else 0.0 / 0.0
-  f2 := fun f x y =>
-    if f = "pow" then Float.pow x y
-    else if f = "hypot" then Float.sqrt (x * x + y * y)
-    else if f = "atan2" then Float.atan2 x y
-    else if algFun2 f then (algTab : FunTab Float).f2 f x y
-    else 0.0 / 0.0
+/-- Maclaurin series of the error function, `2/sqrt(pi) * sum (-1)^n x^(2n+1) / (n! (2n+1))`
+(used for |x| <= 3: 90 terms, relative error below 1e-13) -/
+def erfSeries (x : Float) : Float := Id.run do
+  let mut term := x
+  let mut sum := x
+  for n in [1:90] do
+    let nf := n.toFloat
+    term := -term * x * x / nf
+    sum := sum + term / (2.0 * nf + 1.0)
+  return 2.0 / Float.sqrt floatPi * sum
 
-def floatFun1 : List String :=
-  ["sin", "cos", "tan", "exp", "log", "sqrt", "tanh", "sinh", "cosh", "atan", "asin", "acos",
-   "asinh", "atanh", "floor", "ceiling", "abs", "Abs", "sign"]
-def floatFun2 : List String := ["pow", "hypot", "atan2", "Max", "Min"]
+/-- continued fraction of the complementary error function for x > 3:
+`erfc x = exp(-x^2)/sqrt(pi) / (x + (1/2)/(x + 1/(x + (3/2)/(x + ...))))`, 80 levels -/
+def erfcFrac (x : Float) : Float := Id.run do
+  let mut f := x
+  for i in [0:80] do
+    let k := (80 - i).toFloat
+    f := x + (k / 2.0) / f
+  return Float.exp (-(x * x)) / Float.sqrt floatPi / f
+
+/-- the error function (py-pde's special function `erf` = `scipy.special.erf`).  Lean's `Float`
+has no erf: this is a numerical implementation, accurate to 1e-13 relative (measured against
+mpmath; the harness compares every value with libm's erf at 1e-9 as its second reference).
+In the AST `erf` is an ordinary unary function symbol: all theorems hold for any table. -/
+def floatErf (x : Float) : Float :=
+  let a := Float.abs x
+  if a <= 3.0 then erfSeries x
+  else if x > 0.0 then 1.0 - erfcFrac a else -(1.0 - erfcFrac a)
+
+/-- libm (Python's `math`/numpy use the same C library functions); `floatErf` above -/
+def floatPrims : Prims Float where
+  pi := floatPi
+  e := Float.exp 1.0
+  sin := Float.sin
+  cos := Float.cos
+  tan := Float.tan
+  exp := Float.exp
+  log := Float.log
+  sqrt := Float.sqrt
+  tanh := Float.tanh
+  sinh := Float.sinh
+  cosh := Float.cosh
+  atan := Float.atan
+  asin := Float.asin
+  acos := Float.acos
+  asinh := Float.asinh
+  atanh := Float.atanh
+  floor := Float.floor
+  ceil := Float.ceil
+  erf := floatErf
+  pow := Float.pow
+  atan2 := Float.atan2
+
+/-- the table of the theorems (`PdeVerif.Ex.primTab`) at libm's primitives -/
+def floatTab : FunTab Float := primTab floatPrims
+
+def floatFun1 : List String := primFun1 ++ ["abs", "Abs", "sign"]
+def floatFun2 : List String := primFun2 ++ ["Max", "Min"]
 
 /-- every function name of the expression is interpreted (by the table or a user definition) -/
 def knownFuns (u1 u2 : List String) : Expr → Bool
